@@ -400,8 +400,42 @@ func runViso(root string, c visoCase) (impl, oracle string) {
 			again = "again=DIFFERENT"
 		}
 	}
-	impl = sb.String() + " " + verdict + " " + treeV + " wf=1 " + again
+	// the canonical listing of both hierarchies as this reader sees them; the Lean model prints the same
+	// listing from the reader of Spec/IsoTree.lean (the one the end-to-end theorems of C07 are about)
+	rd := "rd=unparsable"
+	if img != nil && img.Primary != nil && img.Supplementary != nil && img.Primary.Root != nil && img.Supplementary.Root != nil {
+		rd = "rd=" + digest([]byte(isoListing(img.Primary.Root))) + "." + digest([]byte(isoListing(img.Supplementary.Root)))
+	}
+	impl = sb.String() + " " + verdict + " " + treeV + " wf=1 " + again + " " + rd
 	return impl, ""
+}
+
+// isoListing: depth-first listing of one hierarchy - per directory its identifier path, then its entries in
+// record order (files with their total size, sub-directories), then the sub-directories in record order
+func isoListing(root *IsoNode) string {
+	var sb strings.Builder
+	var walk func(n *IsoNode, ids []string)
+	walk = func(n *IsoNode, ids []string) {
+		sb.WriteString("D")
+		for _, id := range ids {
+			sb.WriteString("/" + hx([]byte(id)))
+		}
+		sb.WriteString("\n")
+		for _, c := range n.Children {
+			if c.IsDir {
+				sb.WriteString("S" + hx([]byte(c.RawID)) + "\n")
+			} else {
+				fmt.Fprintf(&sb, "F%s:%d\n", hx([]byte(c.RawID)), c.Size)
+			}
+		}
+		for _, c := range n.Children {
+			if c.IsDir {
+				walk(c, append(append([]string{}, ids...), c.RawID))
+			}
+		}
+	}
+	walk(root, nil)
+	return sb.String()
 }
 
 func visoLine(nodes []tnode, c visoCase) string {
